@@ -41,14 +41,15 @@ type bounds struct {
 	enumLen, enumBatch      int
 	legal, legalBatch, bigs int
 	mut, mutBatch           int
+	bigSessions             int
 	drvReplies, drvBig      int
 }
 
 func boundsOf(tier string) bounds {
 	if tier == "thorough" {
-		return bounds{enumLen: 7, enumBatch: 8000, legal: 200000, legalBatch: 400, bigs: 24, mut: 200000, mutBatch: 2000, drvReplies: 20000, drvBig: 60}
+		return bounds{enumLen: 7, enumBatch: 8000, legal: 200000, legalBatch: 400, bigs: 24, mut: 200000, mutBatch: 2000, drvReplies: 20000, drvBig: 60, bigSessions: 150}
 	}
-	return bounds{enumLen: 6, enumBatch: 4000, legal: 8000, legalBatch: 100, bigs: 3, mut: 6000, mutBatch: 250, drvReplies: 1000, drvBig: 4}
+	return bounds{enumLen: 6, enumBatch: 4000, legal: 8000, legalBatch: 100, bigs: 3, mut: 6000, mutBatch: 250, drvReplies: 1000, drvBig: 4, bigSessions: 24}
 }
 
 // fixed witnesses: the inputs named in KNOWN_FINDINGS (repaired by 2ef9ad1) and a few boundary ones.
@@ -82,6 +83,10 @@ func gen(tier string, seed int64) []mon.Case {
 	r := rand.New(rand.NewSource(seed*104729 + 2))
 	var cs []mon.Case
 	// driver level first (longest cases)
+	for k := 0; k < b.bigSessions; k++ {
+		s := GenBigSession(r, k)
+		cs = append(cs, mon.MkCase(fmt.Sprintf("c02/bigbuf/%04d", k), Desc{Kind: "drv", Drv: &s}))
+	}
 	for k, hs := range HashSessions() {
 		hs := hs
 		cs = append(cs, mon.MkCase(fmt.Sprintf("c02/hash/%02d", k), Desc{Kind: "drv", Drv: &hs}))
@@ -154,9 +159,10 @@ func init() {
 			"(3) mutated frames (truncation at every byte, size ±1/huge/negative/non-numeric/11 digits/zero, missing/doubled '#', missing LF, missing end marker, garbage after it). " +
 			"Driver level: real netconf.Driver over devsim.Conn + ncsim server, 1.0 and 1.1, Get/RPC/GetConfig, all segmentation policies plus forced read boundaries inside chunk headers, " +
 			"end markers and delimiters and between ]]>]]> and the LF that follows it; no read carries bytes of two server messages. Dedicated sub-families with placed read boundaries and controls: " +
+			"'bigbuf' (5-10 replies of 64-300 KiB per session, one huge chunk / 4 KiB chunks / PRNG chunkings, each followed at once by a notification or an unsolicited old-id reply, read delay 0/50/250 us), " +
 			"'hash' (1.1 data lines / chunks starting with or equal to '##') and 'decl' (1.0, LF after the delimiter in a read of its own, next reply with declaration); fixed witness inputs. " +
 			"Non-trivial = (enum/mutation batch) the reference accepted at least one and rejected at least one input; (legal batch) at least one multi-chunk frame; " +
-			"(driver session) a read boundary strictly inside a chunk header, the end-of-chunks marker or the 1.0 delimiter. Distinct = distinct descriptor hash.",
+			"(driver session) a read boundary strictly inside a chunk header, the end-of-chunks marker or the 1.0 delimiter, or a reply >= 64 KiB followed at once by another server message. Distinct = distinct descriptor hash.",
 		Assumptions: []string{
 			"payload alphabet excludes CR and ESC (the channel strips them by design); payloads are valid UTF-8",
 			"the XML declaration, when present, is spelled exactly <?xml version=\"1.0\" encoding=\"UTF-8\"?> and is the first bytes of the payload",
@@ -167,6 +173,7 @@ func init() {
 				"`#1\\nx##` and `#1\\nx#1\\ny\\n##` are accepted, the data returned is exactly the chunk data); size = 1-10 decimal digits, > 0, no sign, leading zeros tolerated; all chunk data present; " +
 				"'##' required, bytes after it ignored; zero chunks tolerated (`##` alone decodes to the empty result, not failed)",
 			"'carries an rpc-error' = the payload contains <rpc-error>, <rpc-errors> or <nc:rpc-error>",
+			"'bigbuf' replies are a pure function of (big_seed, big_len, chunk_plan, message-id, version) in the descriptor, not spelled out",
 			"decoder-level legal/mutation batches are a pure function of the (seed, n) in the descriptor; failing inputs are written out in full in the replay file",
 		},
 		Gen: gen,
